@@ -352,10 +352,22 @@ func (zp *ZoneParser) next() (RR, bool) {
 	st := zExpectOwnerDir // initial state
 	h := &zp.h
 
+	// The first token of the entry being read, to report an entry that the
+	// end of the input cuts short.
+	var first lex
+	started := false
+
 	for l, ok := zp.c.Next(); ok; l, ok = zp.c.Next() {
 		// zlexer spotted an error already
 		if l.err {
 			return zp.setParseError(l.token, l)
+		}
+
+		if st == zExpectOwnerDir {
+			started = false
+		}
+		if !started && l.value != zBlank && l.value != zNewline {
+			first, started = l, true
 		}
 
 		switch st {
@@ -737,6 +749,11 @@ func (zp *ZoneParser) next() (RR, bool) {
 
 			return rr, true
 		}
+	}
+
+	if started && st != zExpectOwnerDir {
+		// The input ends in the middle of an entry: what was read of it is no record.
+		return zp.setParseError("unexpected end of input", first)
 	}
 
 	// If we get here, we and the h.Rrtype is still zero, we haven't parsed anything, this
